@@ -233,8 +233,9 @@ pub fn run_dynamic(j: &Joined, c: &Case, seed: u64, cap: u64, which: Which, acc:
         conv.observe(&m, &ins, &ev);
         if contributing && !conv.report.ok() {
             // a callee broke the premises C01 states: this execution stops contributing claims
-            let b = &conv.report.breaches[0];
-            if b.starts_with("sp-not-restored") || b.starts_with("saved-not-restored") || b.starts_with("ret-to-wrong") || b.starts_with("stack-access-outside") {
+            // (any of the recorded breaches, not only the first one: an earlier harmless one, like a
+            // read of an unassigned register, must not hide it)
+            if conv.report.breaches.iter().any(|b| b.starts_with("sp-not-restored") || b.starts_with("saved-not-restored") || b.starts_with("ret-to-wrong") || b.starts_with("stack-access-outside")) {
                 contributing = false;
                 stats.contributed = false;
             }
